@@ -19,10 +19,18 @@ APPEND_FILES = [c06.ALPHA[0], c06.ALPHA[1], c06.ALPHA[6], c06.ALPHA[7], c06.ALPH
                 C.spec("MARKFF", n=300, pat="mFF.p0"), C.spec("MARK01", n=600, pat="m01.p2")]
 
 
+# names outside the domain the property quantifies over (not printable ASCII): the writer may refuse them, but whatever image it
+# does write must still be a well-formed stream
+WIDE_NAMES = ["CAF\u00c9", "\u00ff", "\u00c0\u00c9\u00ce\u00d5\u00dc\u00d112", "A\u20acB", "\u65e5\u672c", "AB\x7f", "A\x01B"]
+
+
 def cases(tier, seed):
     for c in c06.cases(tier, seed):
         if c["k"] == "write":
             yield c
+    for nm in WIDE_NAMES:
+        for n in (0, 5, 300):
+            yield {"k": "wname", "files": [C.spec(nm, n=n), C.spec("NEXT", n=3)]}
     # images produced by appending (the tool re-reads the existing image and writes everything again)
     import itertools
     for tup in itertools.product(range(len(APPEND_FILES)), repeat=2):
@@ -47,7 +55,7 @@ def build_by_append(case):
 
 
 def check_case(case):
-    cell = c06.cell_of(case) if case["k"] != "append" else ""
+    cell = c06.cell_of(case) if case["k"] == "write" else ""
     res = {"nontrivial": True, "outcome": "ok"}
     viol = []
 
@@ -56,9 +64,15 @@ def check_case(case):
 
     if case["k"] == "append":
         cell = "append|{}".format(",".join(s["name"] for s in case["files"]))
+    if case["k"] == "wname":
+        cell = "wname|{}|{}".format(case["files"][0]["name"].encode("unicode_escape").decode(), case["files"][0]["n"])
     try:
         img = build_by_append(case) if case["k"] == "append" else c06.build_image(case)
     except Exception as e:
+        if case["k"] == "wname":        # refusing such a name writes no image: nothing to judge
+            res["state"] = "wname-refused"
+            res["outcome"] = "refused"
+            return res
         t, w = common._raiser(e)
         bad("writer raised {}@{}".format(t, w), "image", repr(e)[:100])
         res["viol"] = viol
@@ -79,7 +93,7 @@ def check_case(case):
         else:
             for i, (s, f) in enumerate(zip(want, files)):
                 data = C.pattern(s["n"], s["pat"])
-                nm = s["name"].encode("latin1")[:8].ljust(8, b" ")
+                nm = s["name"].encode("latin1", "replace")[:8].ljust(8, b" ") if case["k"] != "wname" or i else f["name"]
                 if f["data"] != data:
                     bad("payloads do not concatenate to the data", "{} bytes".format(len(data)), "{} bytes".format(len(f["data"])))
                 elif f["name"] != nm or f["type"] != s["type"] or f["dtype"] != s["dtype"]:
@@ -102,5 +116,5 @@ def describe(tier):
     d["oracle"] = ("strict parse of the whole buffer: per file leader, name-file block with exactly 15 payload bytes (name[8], type, data type, "
                    "gap flag, two addresses), leader, data blocks of 1..255 bytes whose payloads concatenate to the data, EOF block; every block "
                    "$55 $3C type len payload cksum $55 with cksum = (type+len+sum) mod 256; only $00/$55 between blocks")
-    d["alphabet"] = d["alphabet"].split("; read side")[0]
+    d["alphabet"] = d["alphabet"].split("; read side")[0] + "; images built by per-file open/add/save(append) cycles; 7 names that are not printable ASCII (the writer may refuse them)"
     return d
